@@ -21,19 +21,24 @@ pub struct Case {
     pub revisit_failures: bool,
 }
 
-fn ins(mn: &str, form: Form, e: Option<Expr>) -> Stmt {
+pub fn ins(mn: &str, form: Form, e: Option<Expr>) -> Stmt {
     Stmt::Instr { mn: mn.into(), form, operand: e }
 }
 
-struct Gen<'e> {
-    e: Ent<'e>,
-    label_no: usize,
-    subs: Vec<(String, Vec<Stmt>)>,
-    tag: String,
+pub struct Gen<'e> {
+    pub e: Ent<'e>,
+    pub label_no: usize,
+    pub subs: Vec<(String, Vec<Stmt>)>,
+    pub tag: String,
+    /// largest count of a counted loop
+    pub max_loop: u32,
+    /// C19: also `.loop` blocks and macro invocations (one source line, several addresses), recursion
+    pub extras: bool,
+    pub macros: Vec<(String, Vec<Stmt>)>,
 }
 
 impl<'e> Gen<'e> {
-    fn label(&mut self, p: &str) -> String {
+    pub fn label(&mut self, p: &str) -> String {
         self.label_no += 1;
         format!("q{}{}{}", p, self.tag, self.label_no)
     }
@@ -102,14 +107,14 @@ impl<'e> Gen<'e> {
         }
     }
 
-    fn items(&mut self, n: usize, depth: usize, keep_x: bool, keep_y: bool, call_depth: usize) -> Vec<Stmt> {
+    pub fn items(&mut self, n: usize, depth: usize, keep_x: bool, keep_y: bool, call_depth: usize) -> Vec<Stmt> {
         let mut out = vec![];
         for _ in 0..n {
             match self.e.below(12) {
                 0 | 1 if depth < 2 && !(keep_x && keep_y) => {
                     // counted loop on x (outer) or y (inner)
                     let use_x = !keep_x;
-                    let k = 1 + self.e.below(6) as i64;
+                    let k = 1 + self.e.below(self.max_loop as usize) as i64;
                     let l = self.label("l");
                     out.push(ins(if use_x { "ldx" } else { "ldy" }, Form::Imm, Some(Expr::num(k))));
                     out.push(Stmt::Label { name: l.clone(), block: None });
@@ -137,6 +142,41 @@ impl<'e> Gen<'e> {
                 4 if depth < 2 => {
                     let m = 1 + self.e.below(3);
                     out.push(Stmt::Braces(self.items(m, depth + 1, keep_x, keep_y, call_depth)));
+                }
+                5 if self.extras => {
+                    // unrolled block: one source line, several addresses
+                    let k = 2 + self.e.below(3) as i64;
+                    let body = self.simple(keep_x, keep_y);
+                    out.push(Stmt::Loop { count: Expr::num(k), body });
+                }
+                6 if self.extras => {
+                    // a macro, invoked here (and possibly again later)
+                    let reuse = !self.macros.is_empty() && self.e.chance(1, 2);
+                    let name = if reuse {
+                        let i = self.e.below(self.macros.len());
+                        self.macros[i].0.clone()
+                    } else {
+                        let name = self.label("m");
+                        let mut body = self.simple(true, true);
+                        body.extend(self.simple(true, true));
+                        self.macros.push((name.clone(), body));
+                        name
+                    };
+                    out.push(Stmt::MacroCall { name, args: vec![] });
+                }
+                7 if self.extras && call_depth == 0 && !self.subs.iter().any(|(n, _)| n.starts_with("qrec")) => {
+                    // a subroutine that calls itself: the same call site is live in several frames
+                    let name = format!("qrec{}", self.tag);
+                    let done = self.label("r");
+                    let k = 2 + self.e.below(3) as i64;
+                    out.push(ins("lda", Form::Imm, Some(Expr::num(k))));
+                    out.push(ins("sta", Form::Plain, Some(Expr::hex(0x1f))));
+                    out.push(ins("jsr", Form::Plain, Some(Expr::id(&name))));
+                    let mut body = vec![ins("dec", Form::Plain, Some(Expr::hex(0x1f))), ins("beq", Form::Plain, Some(Expr::id(&done))), ins("jsr", Form::Plain, Some(Expr::id(&name)))];
+                    body.extend(self.simple(true, true));
+                    body.push(Stmt::Label { name: done, block: None });
+                    body.push(ins("rts", Form::None, None));
+                    self.subs.push((name, body));
                 }
                 _ => out.extend(self.simple(keep_x, keep_y)),
             }
@@ -180,7 +220,7 @@ fn base_program(c: &Case) -> Built {
         let end = (start + 40).min(c.entropy.len());
         let mut sub: Vec<u32> = vec![*seed];
         sub.extend_from_slice(&c.entropy[start..end]);
-        let mut g = Gen { e: Ent::new(&sub), label_no: 0, subs: vec![], tag: format!("{}", t) };
+        let mut g = Gen { e: Ent::new(&sub), label_no: 0, subs: vec![], tag: format!("{}", t), max_loop: 6, extras: false, macros: vec![] };
         let n = 2 + g.e.below(7);
         let mut body = g.items(n, 0, false, false, 0);
         body.push(ins("brk", Form::None, None));
